@@ -1,14 +1,93 @@
-"""C20 — decided by the bounded real-code run of bounded/printers_real.py (see DESIGN.md)."""
+"""C20 — PTB-style and Japanese-bank text read back to the same tree.
+
+Deductive part (PyVC, contracts/readers_ja.py), Japanese half: printer and reader meet at the piece-level specification jtoks(t) of the bank text.
+  printer   depccg/printer/ja.py::ja_of.rec             the text it returns, cut into pieces, is jtoks(node)
+  reader    depccg/tools/ja/reader.py::_JaCCGLineReader.parse_leaf / parse_tree / next_node (inlined)
+            requires jtoks(t) at the cursor; ensures a tree iso to t (shape, category text, rule symbol, word) and the cursor behind it (structural induction)
+  lemmas    next-lemma-ja (the real body of next(target) on characters), jn-positive, first pieces of a subtree
+The PTB half (stack reader), the bank annotations on categories and everything inside fields are decided by the bounded run."""
 import time
+
+from vc.sorts import CheckerError, get_world
+from vc.pyvc import Interp
+from vc import engine
+from vc.engine import verify_contract
+from contracts import cat as catc, printers as pr, readers_ja as rj
 from props import c12
+
 PROP = 'C20'
+SPLIT_DEPTH = 6
+
+
+def setup():
+    w = get_world()
+    catc.bind_world(w)
+    table, impls, virtuals = catc.cat_contracts()
+    I = Interp(w, table)
+    pr.install_etree(I)
+    rj.install_ja_reader_env(I)
+    cs = [rj.Normalize(), rj.JaRec(), rj.JaNext(), rj.JaCheck(), rj.JaPeek(), rj.JaParseLeaf(), rj.JaParseTree()]
+    for c in cs:
+        I.contracts[c.name] = c
+    return w, I, cs
+
+
+def run_job(kind, key):
+    w, I, cs = setup()
+    if kind == 'prefixes':
+        c = [x for x in cs if x.qualname == key][0]
+        return dict(job=key, parts=verify_contract(I, c, PROP, list_prefixes=SPLIT_DEPTH), records=[])
+    if kind == 'contract':
+        qual, case, prefix = key
+        c = [x for x in cs if x.qualname == qual][0]
+        recs, npaths = verify_contract(I, c, PROP, only_case=case, prefix=prefix)
+        for r in recs:
+            r['witness'] = dict(function=c.name)
+        return dict(job=key, records=recs, paths=npaths, lib=sorted(I.used_lib))
+    if kind == 'next-lemma':
+        c = rj.JaNextLemma()
+        engine.Z3_MS = 1500          # character-level string lemma: z3's sequence solver rarely decides it, cvc5 --strings-exp does (both are tried)
+        recs, npaths = verify_contract(I, c, PROP)
+        for r in recs:
+            r['name'] = r['name'].replace('_JaCCGLineReader.next/', '_JaCCGLineReader.next[next-lemma-ja]/')
+            r['witness'] = dict(function=c.name)
+        return dict(job=key, records=recs)
+    if kind == 'lemmas':
+        return dict(job=key, records=rj.ja_lemmas(I, PROP))
+    raise CheckerError(kind)
 
 
 def main(tier='quick', seed=0):
     t0 = time.time()
+    records, errors = [], []
+    parts = engine.run_jobs('props.c20', [('prefixes', '_JaCCGLineReader.parse_tree'), ('prefixes', 'ja_of.rec')])
+    jobs = [('contract', ('_JaCCGLineReader.parse_leaf', None, None)), ('next-lemma', 'next'), ('lemmas', 'pieces')]
+    for r in parts:
+        if r.get('error'):
+            errors.append(f"{r['error']} (job {r['job']})")
+        for case, prefix in r.get('parts', []):
+            jobs.append(('contract', (r['job'], case, prefix)))
+    results = engine.run_jobs('props.c20', jobs)
+    seen_vac = set()
+    for r in results:
+        for rec in r.get('records', []):
+            records.append(rec)
+        if r.get('error'):
+            errors.append(f"{r['error']} (job {r['job']})")
+    pr.replay_views(records)
     assumptions = [
-        'bounded stand-in only: run-time contract decode(encode(t)) = view(t) with independent spec decoders, and the repository readers applied to files the encoders wrote, on enumerated derivations (never counted as proved)',
-        'lxml serialise/parse round trip preserves tags, attributes and order for XML-representable strings',
+        'deductive part (Japanese half): bank-format printer and reader against the piece-level specification jtoks(t) over the tree view (view checked against tree.py in C07); recursive calls replaced by contracts '
+        '(structural induction; the induction principle is the meta-rule)',
+        'ASSUMED abstraction of the reader cursor: next(target) / check / peek / line.find(" ", index) / line[index + 1:end] act on pieces (opening piece, blank, category field, leaf body, closing brace), each use with an '
+        'obligation that the pieces at the cursor have the shape the contract abstracts; justified by next-lemma-ja (proved on the real body of next with z3 / cvc5 strings) for fields free of blanks, braces and slashes - '
+        'the precondition of C20 on tokens',
+        'preconditions on the printed fields: category texts are canonical (str(c)), contain no brace, blank or underscore and are not rule symbols; the rule symbols of inner nodes are among the reader\'s fixed set `combinators` '
+        '(read from the module on every run)',
+        'assumed contracts of callees: Category.parse(str(c)) returns a category with that text (C05); Tree.make_* build the view they are told to (view lemma of C07); Token(**fields) holds its fields; normalize is an opaque '
+        'function of the word; DEPENDENCY.sub("", s) returns s when s has no "{"; the leaf body word/word/pos/inflection splits at "/" into four slash-free fields, the first being the word',
+        'the PTB half (_parse_ptb, a stack machine over "word)))" items), the bank annotations ({Ik}, _I1(...)) and the file-level readers are decided by the BOUNDED stand-in (never counted as proved)',
     ]
-    extra = dict(functions_under_contract=[], explanation='no contract-level proof was built for this property; the deciding evidence is the bounded run on the real encoders and readers')
-    return c12.finish_with(PROP, tier, seed, t0, [], [], extra, assumptions, ['printers_real.py'], level='exploration')
+    extra = dict(functions_under_contract=['depccg/printer/ja.py::ja_of.rec', 'depccg/tools/ja/reader.py::_JaCCGLineReader.parse_leaf', 'depccg/tools/ja/reader.py::_JaCCGLineReader.parse_tree',
+                                           'depccg/tools/ja/reader.py::_JaCCGLineReader.next_node (inlined)', 'depccg/tools/ja/reader.py::_JaCCGLineReader.next (next-lemma-ja, characters)'],
+                 bounded_functions=['depccg/printer/ptb.py::ptb_of', 'depccg/tools/reader.py::_parse_ptb / read_ptb', 'depccg/tools/ja/reader.py::read_ccgbank'])
+    return c12.finish_with(PROP, tier, seed, t0, records, errors, extra, assumptions, ['printers_real.py'], level='exploration')
